@@ -24,7 +24,7 @@ ASSUMPTIONS = [
     "attach and replace without deletion do not change the registry",
 ]
 REQUIRED = ["op:create", "op:copy", "op:from_xml", "op:from_json", "op:attach", "op:replace_delete", "op:replace_keep", "op:prune",
-            "op:prune_strict", "op:expand", "op:delete", "op:delete_keep_children", "ops_discarding", "ops_creating"]
+            "op:prune_strict", "op:expand", "op:delete", "op:delete_keep_children", "op:forget", "ops_discarding", "ops_creating"]
 EXHAUSTIVE = {"quick": False, "thorough": False}
 
 
@@ -69,8 +69,9 @@ class Monitor:
                                                                     f"{'missing' if n.id not in now else 'another node'}", wit())
                 return
         for n in discarded:
-            if n.id in now and now[n.id] is n:
-                ctx.violation(f"discarded-node-still-registered|{op}", f"{op}: <{n.name}> was discarded but is still registered", wit())
+            if (n.id in now and now[n.id] is n) or Node.get_node_instance(n.id) is n:
+                ctx.violation(f"discarded-node-still-registered|{op}", f"{op}: <{n.name}> was discarded but is still "
+                                                                       f"{'registered' if n.id in now else 'retrievable through get_node_instance'}", wit())
                 return
         for k, v in before.items():
             if k in gone:
@@ -80,6 +81,11 @@ class Monitor:
                 return
             if now[k] is not v and k not in cr_ids:
                 ctx.violation(f"registry-entry-replaced|{op}", f"{op}: id {k} now maps to a different object", wit())
+                return
+        live = [k for k in before if k not in gone]
+        for k in (live if len(live) <= 5 else ctx.rng.sample(live, 5)):
+            if Node.get_node_instance(k) is not before[k]:
+                ctx.violation(f"live-node-not-retrievable|{op}", f"{op}: get_node_instance of a live id does not return its node", wit())
                 return
         extra = [k for k in now if k not in before and k not in cr_ids]
         if extra:
@@ -157,7 +163,7 @@ def one_history(ctx, gen, hno):
     for step in range(60):
         before = dict(Node.store)
         ops = ["create", "create", "copy", "from_xml", "from_json", "attach", "replace_delete", "replace_keep", "prune", "prune_strict",
-               "expand", "delete", "delete_keep_children"]
+               "expand", "delete", "delete_keep_children", "forget"]
         op = rng.choice(ops)
         if live_count() > 200:
             op = "delete"
@@ -244,6 +250,29 @@ def one_history(ctx, gen, hno):
                 mon.check(op, before, created, discarded, wit)
                 history[-1] = [op, f"tree of {len(rb)} nodes, {k} references"]
                 held.append(t)
+            elif op == "forget" and held:
+                # the caller keeps only ids (as a service does between requests): nodes must stay retrievable until deleted
+                i = rng.randrange(len(held))
+                facts = [(n.id, n.name, len(n.children)) for n in snapshot.walk(held[i])]
+                root_id = held[i].id
+                history.append([op, len(facts)])
+                before = None
+                del held[i]
+                import gc
+                gc.collect()
+                ctx.evaluated()
+                ctx.count("op:forget")
+                ok = True
+                for nid, name, nk in facts:
+                    got = Node.get_node_instance(nid)
+                    if got is None or got.name != name or len(got.children) != nk:
+                        ctx.violation("node-lost-while-only-its-id-was-kept", f"after dropping every reference to a tree of {len(facts)} nodes, "
+                                                                              f"get_node_instance(id of <{name}>) returns {got!r:.80}", wit())
+                        ok = False
+                        break
+                r = Node.get_node_instance(root_id)
+                if ok and r is not None:
+                    held.append(r)
             elif op in ("delete", "delete_keep_children") and held:
                 i = rng.randrange(len(held))
                 r = held[i]
@@ -289,7 +318,7 @@ def run(ctx, params):
     gen = treegen.Gen()
     Node.store.clear()  # start every shard from an empty registry (harness hygiene, not an operation under test)
     for h in range(params["histories"]):
-        one_history(ctx, gen, h)
+        ctx.case(one_history, ctx, gen, h, seconds=60.0)
         ctx.count("histories")
     ctx.cover["max_registry_size"] = max(ctx.cover.get("max_registry_size", 0), len(Node.store))
 
